@@ -2,11 +2,11 @@ use super::idmap::{IdIndex, IdMap};
 
 /// Id uniquely identifying namespace.
 #[derive(Debug, Clone, Copy, Hash, PartialEq, Eq, Ord, PartialOrd)]
-pub struct NamespaceId(u16);
+pub struct NamespaceId(u32);
 
 impl IdIndex<NamespaceId> for NamespaceId {
     fn to_id(index: usize) -> NamespaceId {
-        NamespaceId(index as u16)
+        NamespaceId(index as u32)
     }
 
     fn from_id(id: NamespaceId) -> usize {
